@@ -534,3 +534,23 @@ Proof.
     exfalso. assert (existsb fst (map f caxes) = true); [|congruence].
     apply existsb_exists. exists (f ax). split; [now apply in_map|]. unfold f. now rewrite Ei.
 Qed.
+
+(* the bounds of a 1-d construct with two-vertex cells are reversed exactly when a
+   slice selects its cells in descending order (CF section 7.1) *)
+Lemma reverse_bounds_slice size bsize a b st l :
+  slice_positions size a b (Some st) = Some l -> (2 <= length l)%nat ->
+  (reverse_bounds 2 size bsize (PSlice a b (Some st)) = true <-> nth 1 l 0 < nth 0 l 0).
+Proof.
+  unfold slice_positions. destruct (st =? 0) eqn:E0; [discriminate|].
+  intros H Hl. inversion H; subst l; clear H.
+  rewrite !range_list_nth by lia. unfold reverse_bounds.
+  change (2 =? 2) with true. cbn [andb].
+  change (Z.of_nat 1) with 1. change (Z.of_nat 0) with 0.
+  split; intros H.
+  - apply Z.ltb_lt in H. lia.
+  - apply Z.ltb_lt. lia.
+Qed.
+
+(* cells with another number of vertices are never reordered *)
+Lemma reverse_bounds_polygon nb size bsize p : nb <> 2 -> reverse_bounds nb size bsize p = false.
+Proof. intros H. unfold reverse_bounds. assert (E : nb =? 2 = false) by lia. now rewrite E. Qed.
